@@ -748,10 +748,32 @@ class OpGen:
         f.ptype = tname
         return f
 
+    def _meta_selection(self):
+        """A small introspection selection at the query root (the meta-field
+        resolvers then run in the same gather / pool as ordinary ones)."""
+        st = self.st
+        if st.below(2, "meta_kind") == 0:
+            inner = FieldSel("queryType", sel=[FieldSel("name")])
+            f = FieldSel("__schema", sel=[inner])
+        else:
+            names = (sorted(self.spec.objects) + sorted(self.spec.interfaces)
+                     + sorted(self.spec.unions))
+            t = names[st.below(len(names), "meta_type")]
+            f = FieldSel("__type", args=[("name", json.dumps(t))],
+                         sel=[FieldSel("name"), FieldSel("kind")])
+            f.kwargs = {"name": t}
+        if st.chance(1, 3, "meta_alias"):
+            f.alias = "meta"
+        f.ptype = self.spec.query
+        return f
+
     def gen_selset(self, tname, depth, outer=None):
         st = self.st
         spec = self.spec
         sels = []
+        if tname == spec.query and depth == self.max_depth and \
+                st.chance(1, 8, "meta"):
+            sels.append(self._meta_selection())
         if outer and depth > 0 and st.chance(1, 2, "remerge"):
             f = self._remerge(tname, depth, outer)
             if f is not None:
